@@ -51,6 +51,11 @@ def variants():
     return out
 
 
+def trace_variant(desc, tier):
+    """With trace logging enabled: the same searches one level shallower."""
+    return {"depth": desc["depth"] - 1}
+
+
 def tasks(tier, seed):
     ts = []
     for v in variants():
